@@ -142,7 +142,15 @@ extern "C" void h_pair() {
         vf_assert(gt == (r > 0), 5);
         vf_assert(eq == (r == 0), 6);
     }
-#ifndef NO_CONVERSE
+    // finding C15-ptr-right-operand: a pointer on the right of a non-pointer is not followed, so (a ? b) and (b ? a) are
+    // answered by different rules (rank of the pointer kind vs. the target's content)
+    const bool mixed = ((A_K == 1) != (B_K == 1));
+#ifdef KF_ONLY_C15_ptr_right_operand
+    vf_assume(mixed);
+#endif
+#ifdef KF_EXCL_C15_ptr_right_operand
+    if (!mixed)
+#endif
     {
         const bool rlt = (*b.v < *a.v), rgt = (*b.v > *a.v);
         bool req = (*b.v == *a.v);
@@ -153,7 +161,6 @@ extern "C" void h_pair() {
         vf_assert(gt == rlt, 8);
         vf_assert(eq == req, 9);
     }
-#endif
     unmk(a);
     unmk(b);
     vf_witness();
